@@ -539,3 +539,6 @@ Proof.
   revert l. induction k as [|k IH]; intros l; [destruct l; reflexivity|].
   destruct l as [|x l]; [reflexivity|]. cbn [skipn] in *. apply IH.
 Qed.
+
+(* simplify the application of a generated loop body / condition to a state tuple *)
+Ltac body_red := cbv beta iota.
